@@ -4,7 +4,7 @@
    vnone = the value Python calls None.  A dictionary is the list of its items in insertion order;
    "well-formed" (pairwise different keys) is the hypothesis NoDup (map fst d) where it is needed. *)
 From Coq Require Import List ZArith NArith Bool Permutation.
-From Orso Require Import Model.C02 Proofs.C02 Proofs.C02_Session Proofs.C02_Source Proofs.C02_Producer.
+From Orso Require Import Model.C02 Proofs.C02 Proofs.C02_Session Proofs.C02_Source Proofs.C02_Producer Proofs.C02_Keyed.
 Import ListNotations.
 
 (* Row(dict) has exactly one cell per field, duplicates included. *)
@@ -497,3 +497,74 @@ Example C02_nonvacuous_derived :
    SOFrame [ex_a; ex_b] [[7; 8]; [9; 10]]; SOFrame [ex_a; ex_b] [[7; 8]]; SOFrame [ex_a; ex_b] [[7; 8]; [11; 12]];
    SOFrame [ex_a; ex_b] [[1; 2]; [3; 4]]].
 Proof. reflexivity. Qed.
+
+(* ---- dictionaries whose keys are not all strings (round 7) ----
+   PK = key objects, K = names (strings); an entry is ((key object, its str()), value).
+   DataFrame(dictionaries) puts each value at the position of the KEY OBJECT it is stored under: cell (j, i) is
+   dictionary j's value under the i-th key object of the first dictionary (None when it has no equal key); the
+   column is merely named str(key object) - two keys with one name (1 and '1') are two columns with their own
+   values.  One row per dictionary, every row as wide as the column list; the rows are exactly those of the
+   constructor model run over the key objects. *)
+Theorem C02_keyed_frame_by_key_object :
+  forall (PK K V : Type) (eqPK : forall a b : PK, {a = b} + {a <> b}) (vnone : V) (ds : list (list ((PK * K) * V))),
+  let f := keyed_frame eqPK vnone ds in
+  fst f = match ds with [] => [] | d :: _ => kd_names d end /\
+  length (snd f) = length ds /\
+  Forall (fun r => length r = length (fst f)) (snd f) /\
+  snd f = snd (frame_of_dicts eqPK vnone (map kd_ident ds)) /\
+  (forall first rest d j i o n v0,
+     ds = first :: rest -> nth_error ds j = Some d -> nth_error first i = Some ((o, n), v0) ->
+     nth_error (fst f) i = Some n /\
+     exists r, nth_error (snd f) j = Some r /\
+               nth_error r i = Some (match lookup eqPK o (kd_ident d) with Some v => v | None => vnone end)).
+Proof.
+  intros PK K V eqPK vnone ds f.
+  destruct (keyed_rows_are_object_rows PK K V eqPK vnone ds) as [Hr [Hc _]].
+  destruct (keyed_shape PK K V eqPK vnone ds) as [Hl Hw].
+  repeat split; try assumption.
+  - eapply (keyed_cell PK K V eqPK vnone ds); eassumption.
+  - eapply (keyed_cell PK K V eqPK vnone ds first d rest j i o n v0); eassumption.
+Qed.
+Print Assumptions C02_keyed_frame_by_key_object.
+
+(* append(dict) on such a frame goes by column NAME: the appended cell i is the dictionary's value under the key
+   object that IS the string naming column i (a key 1 does not feed a column named '1'). *)
+Theorem C02_keyed_append_by_name :
+  forall (PK K V : Type) (eqPK : forall a b : PK, {a = b} + {a <> b}) (vnone : V) (inj : K -> PK)
+         (f : list K * list (list V)) (d : list ((PK * K) * V)),
+  fst (keyed_append eqPK vnone inj f d) = fst f /\
+  snd (keyed_append eqPK vnone inj f d) =
+    snd f ++ [map (fun c => match lookup eqPK (inj c) (kd_ident d) with Some v => v | None => vnone end) (fst f)].
+Proof. exact keyed_append_row. Qed.
+Print Assumptions C02_keyed_append_by_name.
+
+(* On dictionaries whose keys are all strings the keyed model IS the constructor / append model of the theorems
+   above (a string is only equal to itself as a key object). *)
+Theorem C02_keyed_agrees_on_string_keys :
+  forall (PK K V : Type) (eqPK : forall a b : PK, {a = b} + {a <> b}) (eqK : forall a b : K, {a = b} + {a <> b})
+         (vnone : V) (inj : K -> PK),
+  (forall a b, inj a = inj b -> a = b) ->
+  (forall ds : list (list (K * V)), keyed_frame eqPK vnone (map (kd_of_dict inj) ds) = frame_of_dicts eqK vnone ds) /\
+  (forall f (d : list (K * V)), keyed_append eqPK vnone inj f (kd_of_dict inj d) = frame_append eqK vnone f d).
+Proof.
+  intros PK K V eqPK eqK vnone inj Hinj. split.
+  - exact (keyed_frame_of_string_keyed PK K V eqPK eqK vnone inj Hinj).
+  - exact (keyed_append_of_string_keyed PK K V eqPK eqK vnone inj Hinj).
+Qed.
+Print Assumptions C02_keyed_agrees_on_string_keys.
+
+(* keys 1 and '1' in one dictionary (two columns named "1", each with its own value, also when the second
+   dictionary lists them the other way round); int / None / bytes / tuple keys keep their values; True finds the
+   value stored under 1; append({1: .., '1': ..}) feeds both columns named "1" from the string key.
+   PKStr is injective, so the previous theorem applies to the instance. *)
+Example C02_nonvacuous_keyed :
+  let one := [49%N] in
+  keyed_frame pkey_dec 0 [[((PKNum 1, one), 5); ((PKStr one, one), 6)]; [((PKStr one, one), 8); ((PKNum 1, one), 7)]] =
+    ([one; one], [[5; 6]; [7; 8]]) /\
+  keyed_appends pkey_dec 0 PKStr ([one; one], [[5; 6]]) [[((PKNum 1, one), 3); ((PKStr one, one), 4)]] =
+    ([one; one], [[5; 6]; [4; 4]]) /\
+  keyed_frame pkey_dec 0 [[((PKNum 0, [48%N]), 1); ((PKNone, [78%N]), 2); ((PKBytes [107%N], [98%N]), 3); ((PKObj 0, [40%N]), 4)];
+                          [((PKObj 0, [40%N]), 9); ((PKNum 1, [84%N]), 8); ((PKStr [48%N], [48%N]), 7)]] =
+    ([[48%N]; [78%N]; [98%N]; [40%N]], [[1; 2; 3; 4]; [0; 0; 0; 9]]) /\
+  (forall a b, PKStr a = PKStr b -> a = b).
+Proof. repeat split; try reflexivity. intros a b H. now inversion H. Qed.
